@@ -144,6 +144,10 @@ def drive(gen, script, sent, thrown):
             elif step.startswith("throw(SomeNonExceptionBaseException"):
                 r = gen.throw(thrown.setdefault(i, ScriptedBaseError(f"thrown{i}")))
                 outs.append(("yield", r))
+            elif step in ("throw(RequestAbort)", "throw(RequestStop)"):
+                import bluesky.utils as _bu
+                r = gen.throw(thrown.setdefault(i, getattr(_bu, step[6:-1])(f"thrown{i}")))
+                outs.append(("yield", r))
             elif step.startswith("throw"):
                 r = gen.throw(thrown.setdefault(i, thrown.get("cls", ScriptedError)(f"thrown{i}")))
                 outs.append(("yield", r))
